@@ -1,6 +1,7 @@
 package main
 
 import (
+	"go/token"
 	"fmt"
 	"go/types"
 	"strings"
@@ -392,6 +393,10 @@ func mkLen(st *State, x Val, t types.Type) Val {
 	}
 	if m, ok := x.(*MapV); ok {
 		return mkLen(st, m.Coll, t)
+	}
+	// len(a + b) on strings = len(a) + len(b)
+	if b, ok := x.(*BinV); ok && b.Op == token.ADD && isStringType(b.Type()) {
+		return mkBin(token.ADD, mkLen(st, b.Y, t), mkLen(st, b.X, t), t)
 	}
 	if app, ok := x.(*AppendV); ok && !app.Spread {
 		if k, isC := constInt(mkLen(st, app.S, t)); isC {
